@@ -1551,6 +1551,9 @@ class EBPF(EBPFBase):
                 self.append(Opcode.MOV+Opcode.LONG+Opcode.REG, i, tmp, 0, 0)
             self.owners -= registers
             self.owners |= {i for _, i in save}  # restored, so still in use
+            # a helper call gives up r1 to r5: a register that was in use
+            # and is not saved here is the one that takes the result
+            self.owners |= oldowners - registers
 
     @contextmanager
     def get_stack(self, size):
